@@ -130,6 +130,41 @@ deftag!(T2, P2, B2, H2, 2);
 deftag!(T3, P3, B3, H3, 3);
 deftag!(T4, P4, B4, H4, 4);
 
+/// a packer whose `unpack_from_slice` validates more than `pack_into_slice` does (validation on read):
+/// it reads back only values whose first byte is below 0x80
+macro_rules! defstrict {
+    ($S:ident, $k:expr) => {
+        #[derive(Clone, Debug, PartialEq)]
+        pub struct $S(pub Vec<u8>);
+        impl SplDiscriminate for $S {
+            const SPL_DISCRIMINATOR: ArrayDiscriminator = ArrayDiscriminator::new(TAGS[$k]);
+        }
+        impl VariableLenPack for $S {
+            fn pack_into_slice(&self, dst: &mut [u8]) -> Result<(), ProgramError> {
+                if dst.len() < self.0.len() {
+                    return Err(ProgramError::AccountDataTooSmall);
+                }
+                dst[..self.0.len()].copy_from_slice(&self.0);
+                Ok(())
+            }
+            fn unpack_from_slice(src: &[u8]) -> Result<Self, ProgramError> {
+                if src.first().map(|b| *b >= 0x80).unwrap_or(false) {
+                    return Err(ProgramError::InvalidAccountData);
+                }
+                Ok($S(src.to_vec()))
+            }
+            fn get_packed_len(&self) -> Result<usize, ProgramError> {
+                Ok(self.0.len())
+            }
+        }
+    };
+}
+defstrict!(S0, 0);
+defstrict!(S1, 1);
+defstrict!(S2, 2);
+defstrict!(S3, 3);
+defstrict!(S4, 4);
+
 /// dispatch on the tag index: binds `$T`, `$P`, `$B`, `$H` as type aliases inside `$body`
 macro_rules! with_tag {
     ($k:expr, $T:ident, $P:ident, $B:ident, $H:ident, $body:block) => {
@@ -275,6 +310,15 @@ fn apply_on(st: &mut TlvStateMut, base: usize, op: &Op) -> Result<(usize, usize)
             Op::AllocPack { t, data, borsh, allow } => with_tag!(*t, T, P, B, H, {
                 let r = if *borsh {
                     st.alloc_and_pack_variable_len_entry(&B { data: data.clone() }, *allow)?
+                } else if data.len() % 3 == 1 {
+                    // the read-validating packer: storing must not depend on reading back
+                    match *t {
+                        0 => st.alloc_and_pack_variable_len_entry(&S0(data.clone()), *allow)?,
+                        1 => st.alloc_and_pack_variable_len_entry(&S1(data.clone()), *allow)?,
+                        2 => st.alloc_and_pack_variable_len_entry(&S2(data.clone()), *allow)?,
+                        3 => st.alloc_and_pack_variable_len_entry(&S3(data.clone()), *allow)?,
+                        _ => st.alloc_and_pack_variable_len_entry(&S4(data.clone()), *allow)?,
+                    }
                 } else {
                     st.alloc_and_pack_variable_len_entry(&H::new(data.clone()), *allow)?
                 };
@@ -1334,7 +1378,7 @@ pub fn run(ctx: &Ctx, prop: &str) -> Report {
     for (n, ops) in corpus() {
         run_history(&mut rep, prop, &mut rng, n, 0, true, Some(&ops));
     }
-    if prop == "C04" {
+    if prop == "C04" || prop == "C01" {
         huge_length_scenario(&mut rep);
     }
     // sizes and counts that cross the u8 / u16 limits (monitor only: too large to evaluate in Coq)
